@@ -684,6 +684,12 @@ func RunC18(cfg Config) (*ShardResult, error) {
 		l := corpus.GenList(root.Derive("list", i), i)
 		sources = append(sources, ListSource{Spec: &l})
 	}
+	// long lists: outputs of tens of kilobytes, so that buffering layers (4 KiB bufio buffers, 64 KiB pipes)
+	// inside a writer are crossed several times before a fault arrives
+	for _, f := range []string{"srt", "ssa"} {
+		d := corpus.Large(f, root.Derive("c18-large-"+f, 0), 24000)
+		sources = append(sources, ListSource{Doc: d.Name, Reader: f, Data: d.Data})
+	}
 	for si, src := range sources {
 		sh := canon.HashBytes(mustJSON(src))
 		for _, writer := range api.WriterFormats {
